@@ -331,21 +331,24 @@ let enc_model (t : ty) (v : val0) : string * n list option =
   | Fuel -> ("fuel", None)
 
 (* both layers on every case: A (lists) and B (cursor + region stack) must agree *)
-let dec_model ?(extra = 0) (t : ty) (bs : n list) : string =
+let rec dec_model ?(extra = 0) ?(big = false) (t : ty) (bs : n list) : string =
   let len = List.length bs in
-  let fuel = nat_of_int (64 + 2 * len + extra) in
+  (* sequences of zero-width elements need as much fuel as their count says (TermProofs): retry once with a
+     fuel of 2^22 before reporting `fuel` *)
+  let fuel = nat_of_int (if big then 4194304 else 64 + 2 * len + extra) in
   let a = match decodeA fuel !cur_env t bs [] with
     | Ok ((v, rest), _) -> "ok " ^ print_val !cur_env true t v ^ " " ^ string_of_int (List.length rest)
     | Err e -> "err " ^ err_class e
     | Panic p -> "panic " ^ pkind_str p
     | Fuel -> "fuel" in
-  if len > 4096 then a else begin
+  if len > 4096 then (if a = "fuel" && not big then dec_model ~extra ~big:true t bs else a) else begin
     let b = match decodeB fuel !cur_env t bs [] with
       | Ok ((v, rest), _) -> "ok " ^ print_val !cur_env true t v ^ " " ^ string_of_n rest
       | Err e -> "err " ^ err_class e
       | Panic p -> "panic " ^ pkind_str p
       | Fuel -> "fuel" in
-    if a = b then a else "LAYERS-DISAGREE A: " ^ a ^ " B: " ^ b
+    if a = "fuel" && b = "fuel" && not big then dec_model ~extra ~big:true t bs
+    else if a = b then a else "LAYERS-DISAGREE A: " ^ a ^ " B: " ^ b
   end
 
 let codec_line (l : string) : string =
